@@ -1,10 +1,12 @@
 """Shared orchestration for C11 / C12 (peer grammars executed against the real transports).
 
 run_batched: executes behaviours in batches in separate driver processes.  A panic in a transport
-goroutine (or a synctest "blocked goroutines remain" deadlock) kills the driver process; the failing
-batch is then re-run one behaviour at a time and every behaviour whose process dies is recorded in the
-trace as a {"ev":"crash"} line (with the reason), so that the TLC monitor - not this script - turns it
-into the I_NoPanic / I_NoLeak verdict.
+goroutine, a synctest "blocked goroutines remain" deadlock or the driver's wall-clock watchdog (VERIF_HANG)
+kills the driver process.  Drivers print "VERIF_BEGIN <index>" before each behaviour and append the events
+of a behaviour to the trace file when it is over, so the culprit is the last index announced: it is
+recorded in the trace as a {"ev":"crash"} line (with the reason) and the run resumes after it; drivers
+without the marker are attributed by bisection.  The TLC monitor - not this script - turns the crash
+line into the I_NoPanic / I_NoLeak / I_NoHang verdict.
 """
 import json
 import os
@@ -13,6 +15,7 @@ import re
 from vcheck import Inconclusive, write_ndjson
 
 CRASH_PATTERNS = [
+    ("hang", re.compile(r"^VERIF_HANG \d+", re.M)),
     ("leak", re.compile(r"deadlock: main bubble goroutine has exited but blocked goroutines remain")),
     ("hang", re.compile(r"deadlock: all goroutines in bubble are blocked")),
     ("panic", re.compile(r"^panic: ", re.M)),
@@ -65,6 +68,33 @@ def run_batched(ctx, binary, test, behs, out_path, tag, batch=400, env=None, tim
         outf.write(json.dumps({"ev": "crash", "kind": kind, "b": i, "msg": (m.group(1) if m else kind)[:300],
                                "tail": out[-3000:], "beh": json.dumps(b)}, separators=(",", ":")) + "\n")
 
+    def direct(outf, lo, hi):
+        """Run [lo, hi) resuming after each attributed crash.  Returns False if the driver has no BEGIN marker."""
+        while lo < hi:
+            if len(crashed) >= max_crashes:
+                skipped[0] += hi - lo
+                return True
+            counter[0] += 1
+            ok, kind, out, tpath = _run_one(ctx, binary, test, behs[lo:hi], lo, "%s%d" % (tag, counter[0]), env, timeout)
+            if ok:
+                outf.write(open(tpath).read())
+                return True
+            if kind is None:
+                raise Inconclusive("driver %s failed without a recognisable crash:\n%s" % (test, out[-4000:]))
+            marks = re.findall(r"^VERIF_BEGIN (\d+)$", out, re.M)
+            if not marks:
+                return False
+            bad = int(marks[-1])
+            if not lo <= bad < hi:
+                raise Inconclusive("driver %s announced behaviour %d outside %d..%d" % (test, bad, lo, hi))
+            ctx.log("driver process died (%s) on behaviour %d of phase %s" % (kind, bad, tag))
+            if os.path.exists(tpath):
+                outf.write(open(tpath).read())      # the behaviours completed before the crash
+            crashed.append(bad)
+            emit_crash(outf, bad, behs[bad], kind, out)
+            lo = bad + 1
+        return True
+
     def go(outf, lo, hi, known_bad):
         # behaviours [lo, hi); known_bad: this range is known to crash (skip the confirming run unless single)
         if lo >= hi:
@@ -96,7 +126,9 @@ def run_batched(ctx, binary, test, behs, out_path, tag, batch=400, env=None, tim
 
     with open(out_path, "a") as outf:
         for base in range(0, len(behs), batch):
-            go(outf, base, min(base + batch, len(behs)), False)
+            hi = min(base + batch, len(behs))
+            if not direct(outf, base, hi):
+                go(outf, base, hi, True)
     if skipped[0]:
         ctx.log("phase %s: %d behaviours skipped after %d attributed crashes" % (tag, skipped[0], len(crashed)))
     return crashed
